@@ -62,7 +62,7 @@ package freelist
 
 //@ func (cp *FreeList) Put(blk types.Block) (err error)  property C13
 //@   preserves cp
-//@   requires cp.outstandingWork < (1 << 62)
+//@   local requires cp.outstandingWork < (1 << 62)
 //@   modifies cp.blockPool, cp.outstandingWork, elems(cp.blockPool)
 //@   ensures @appended len(cp.blockPool) == old(len(cp.blockPool)) + 1 && cp.blockPool[old(len(cp.blockPool))] == blk
 //@   ensures @kept forall i int :: 0 <= i && i < old(len(cp.blockPool)) ==> cp.blockPool[i] == old(cp.blockPool[i])
